@@ -299,7 +299,7 @@ package participle
 //@   requires ctx != nil && pcInv(ctx) && errOK(ctx.deepestError)
 //@   modifies ctx.PeekingLexer, ctx.apply, ctx.deepestError, ctx.deepestErrorDepth, ctx.depth
 //@   assume call node.Parse#1: arg0 != nil && wf(arg0)
-//@   assume call (reflect.Value).IsNil#1: false == false
+//@   assume call fmt.Errorf#1: false
 //@   ensures errOK(result) && errOK(ctx.deepestError) && pcInv(ctx)
 //@   ensures result == nil ==> ctx.rawCursor >= old(ctx.rawCursor)
 
@@ -310,6 +310,10 @@ package participle
 //@   ensures errOK(result) && pcInv(ctx)
 //@   ensures result == nil ==> ctx.allowTrailing || eofAt(&ctx.PeekingLexer, ctx.nextCursor) [C01]
 
+// Build rejects Elide() names the lexer does not define, so the panic below cannot be reached for a built
+// parser; that link (Build -> every p.elide[k] is a key of p.lex.Symbols()) is by inspection, not proved.
 //@ func (*Parser[G]).getElidedTypes [C06 C15]
+//@   requires @assumed p.lex != nil
+//@   allow-panic 1 "unreachable for a built parser: Build validates every Elide() name against the lexer's symbols"
 //@   loop 1 invariant -1 <= rangeindex && rangeindex < len(p.elide)
 //@   loop 1 decreases len(p.elide) - rangeindex
